@@ -216,6 +216,35 @@ impl Builder {
         }
     }
 
+    /// Split brain: the honest nodes are cut into two arcs of the leader rotation (so that each
+    /// side has consecutive leaders of its own and could commit if it believed it had a quorum),
+    /// for many timeouts; Byzantine members stay connected to both sides.
+    pub fn split_brain(&mut self) {
+        let mut order: Vec<usize> = (0..self.sc.n).collect();
+        let keys: Vec<_> = (0..self.sc.n).map(|i| crate::cluster::keypair(self.sc.seed, i).0).collect();
+        order.sort_by_key(|i| keys[*i]);
+        let honest: Vec<usize> = order.into_iter().filter(|i| !self.sc.byz.contains(i)).collect();
+        let h = honest.len();
+        if h < 2 {
+            return;
+        }
+        let start = self.r.below(h);
+        let cut = if self.r.chance(0.6) { h / 2 } else { self.r.range(1, (h - 1) as u64) as usize };
+        let mut a = 0u64;
+        let mut b = 0u64;
+        for k in 0..h {
+            let i = honest[(start + k) % h];
+            if k < cut {
+                a |= bit(i);
+            } else {
+                b |= bit(i);
+            }
+        }
+        let t0 = self.r.range(self.t_us, (self.sc.duration_us / 3).max(self.t_us + 1));
+        let len = self.t_us * self.r.range(6, 16);
+        self.sc.net.rules.push(Rule { t0_us: t0, t1_us: t0 + len, src: a, dst: b, bidir: true, svc_mask: NODE_SVC, kind: RuleKind::Block, reply_only: false, label: "split-brain".into() });
+    }
+
     pub fn crash(&mut self, node: usize, t0: u64) {
         let all = self.all_nodes() | (0xffff_ffffu64 << 32);
         self.sc.net.rules.push(Rule {
@@ -304,6 +333,12 @@ pub fn chaos(profile: &str, seed: u64, thorough: bool) -> Scenario {
             b.sc.events.push(TimedEvent { t_us: t, kind: EventKind::AdvTick });
             t += step;
         }
+    }
+    if profile == "C01" && b.r.chance(0.3) {
+        if b.sc.duration_us < b.t_us * 30 {
+            b.sc.duration_us = b.t_us * 30;
+        }
+        b.split_brain();
     }
     let stagger = if b.r.chance(0.3) { b.t_us / 2 } else { 0 };
     b.boots(stagger);
